@@ -103,6 +103,15 @@ def Eq(a, b):
     if is_sym(a) or is_sym(b):
         if isinstance(a, bool) or isinstance(b, bool):
             return tobool(a) == tobool(b)
+        # a number never equals a text (1 != "1" in Python): a symbolic number against any kind of string value is False
+        za, zb = is_sym(a), is_sym(b)
+        num = lambda x: z3.is_int(x) or z3.is_real(x)
+        strish = lambda x: isinstance(x, str) or type(x).__name__ in ("TStr", "FinStr", "SStr", "OpaqueStr", "GroupVal") \
+            or (is_sym(x) and x.sort().kind() == z3.Z3_SEQ_SORT)
+        if (za and num(a) and strish(b)) or (zb and num(b) and strish(a)):
+            return False
+        if not za and not isinstance(a, (int, float, str)) or not zb and not isinstance(b, (int, float, str)):
+            return False if strish(a) != strish(b) else a == b
         return a == b
     return a == b
 
